@@ -3,7 +3,8 @@ attributes, cfg_attr that is always on, strum attributes that belong to OTHER de
 
 DOCS = ["/// A documented variant.", "/// Two-line", "///  indented doc with `code` and {braces}", "/// \"quoted\" text",
         "/** block doc */", "#[doc = \"doc attribute\"]"]
-LINTS = ["#[allow(dead_code)]", "#[allow(unused, clippy::all)]", "#[cfg_attr(all(), allow(unused_variables))]"]
+LINTS = ["#[allow(dead_code)]", "#[allow(unused, clippy::all)]", "#[cfg_attr(all(), allow(unused_variables))]", "#[cfg(all())]",
+         "#[cfg(not(any()))]"]
 # strum attributes that concern other derives only (EnumMessage, EnumProperty); legal on any variant
 OTHER_STRUM = ['#[strum(message = "a message")]', '#[strum(detailed_message = "details {0} {x}")]', '#[strum(props(key = "value", n = 3))]',
                '#[strum(props(flag = true))]']
